@@ -1565,7 +1565,7 @@ impl_read_op!(QuantizeLinear, |attrs: &Attrs| {
         .filter(|dt| dt.as_i64() != 0)
         .map(|dt| dt.as_dtype())
         .transpose()?;
-    let axis = attrs.get_as_int("axis")?.unwrap_or(-1);
+    let axis = attrs.get_as_int("axis")?.unwrap_or(1);
 
     // A non-zero "block_size" selects blocked quantization, which is
     // unsupported.
